@@ -36,7 +36,7 @@
                                           two vertices nearest to centre + radius * direction
      RectanglePosSetterKeepsCorners       setting pos of a Rectangle / CellSquare leaves its corners behind
      LayoutSkipsCentring, Sec3SetPosKeepsSectors, Sec3SetRadiusKeepsCentres, MoveBypassesPosSetter,
-     WrapUsersUseCachedTranslation, CircleBorderZeroRatioIsOne                 (plausible regressions)
+     WrapUsersUseCachedTranslation, CircleBorderZeroRatioIsOne, ClusterPlaceAllDropsMinDist (plausible regressions)
    Trace_Geometry.tla (stage T) validates histories recorded from the real classes against the
    same setter semantics and containment predicate.
 
@@ -475,16 +475,42 @@ Place ==
             /\ out' = [verts |-> IF rc.sector = 0 THEN Verts(rc.s, rc.rot) ELSE SecHex(rc.s, rc.rot, rc.sector),
                        centre |-> IF rc.sector = 0 THEN rc.s.pos ELSE SecCentres(rc.s.pos, rc.s.r, rc.rot)[rc.sector],
                        rad2 |-> IF rc.sector = 0 THEN Rad2(rc.s) ELSE QSq(SecRadius(rc.s.r))]
-\* placement through Cluster.add_random_users: [what |-> "placecl", cl, rot, id, ratio, users]
+\* placement through the cluster-level API Cluster.add_random_users(cell_ids, num_users, user_color, min_dist_ratio):
+\*   [what |-> "placecl", cl, rot, form, ids, nums, ratios]
+\* `form` is the way the arguments are written; whatever the form, the call means the same thing:
+\*   "none_scalar"  cell_ids omitted (= every cell), one number / colour / ratio for all cells
+\*   "none_lists"   cell_ids omitted, per-cell lists
+\*   "int"          one call per id with a single integer id
+\*   "list_scalar"  a list (tuple, array, range) of ids, one number / colour / ratio for all of them
+\*   "list_lists"   a list of ids with per-cell lists
+\* ids / nums / ratios are aligned sequences (for the "none" forms ids = all cells).  Every targeted cell
+\* gets nums[k] users, inside the cell and no closer to its centre than ratios[k] * radius; every other
+\* cell gets none.  The machine's effective ratio per cell is what the code path of that form forwards.
+PlaceForms == {"none_scalar", "none_lists", "int", "list_scalar", "list_lists"}
+PlaceTargets(rc) == IF rc.form \in {"none_scalar", "none_lists"} THEN [k \in 1..rc.cl.n |-> k] ELSE rc.ids
+IndexIn(seq, x) == CHOOSE k \in 1..Len(seq) : seq[k] = x
+PlaceClOut(rc) ==
+   LET P  == LayoutCells(rc.cl, rc.rot)
+       T  == PlaceTargets(rc)
+       hit(k) == \E j \in 1..Len(T) : T[j] = k
+       j(k) == IndexIn(T, k)
+   IN  [rad2  |-> Rad2(CellShape(rc.cl, rc.cl.pos)),
+        cells |-> [k \in 1..rc.cl.n |->
+                     [verts  |-> Verts(CellShape(rc.cl, P[k]), rc.rot),
+                      centre |-> P[k],
+                      count  |-> IF hit(k) THEN rc.nums[j(k)] ELSE 0,
+                      \* the minimum distance ratio in force for this cell
+                      ratio  |-> IF ~hit(k) THEN Q0
+                                 ELSE IF Dev.ClusterPlaceAllDropsMinDist /\ rc.form = "none_scalar" THEN Q0
+                                 ELSE rc.ratios[j(k)]]]]
 PlaceCl ==
    /\ "place" \in Ops /\ c.op = "init"
    /\ \E i \in 1..Len(RelCases) :
         LET rc == RelCases[i]
         IN  /\ rc.what = "placecl"
-            /\ c' = [op |-> "placecl", cl |-> rc.cl, rot |-> rc.rot, id |-> rc.id, ratio |-> rc.ratio, users |-> rc.users]
-            /\ out' = [verts |-> Verts(CellShape(rc.cl, LayoutCells(rc.cl, rc.rot)[rc.id]), rc.rot),
-                       centre |-> LayoutCells(rc.cl, rc.rot)[rc.id],
-                       rad2 |-> Rad2(CellShape(rc.cl, rc.cl.pos))]
+            /\ c' = [op |-> "placecl", cl |-> rc.cl, rot |-> rc.rot, form |-> rc.form, ids |-> rc.ids, nums |-> rc.nums,
+                     ratios |-> rc.ratios]
+            /\ out' = PlaceClOut(rc)
 PProc ==
    /\ "pproc" \in Ops /\ c.op = "init"
    /\ \E i \in 1..Len(RelCases) :
@@ -687,6 +713,19 @@ MutFresh ==
                    /\ out.wverts = Translate(V, PSub(c.wpos, c.pos))
                    /\ out.wusers = UsersAt(c.wpos, c.offs)
                    /\ \A k \in 1..Len(out.wusers) : ExpInside(wshape, c.rot, out.wusers[k])
+
+\* --- cluster-level placement: the meaning of the call does not depend on how its arguments are written
+PlaceClLaws ==
+   c.op = "placecl" =>
+     LET T == PlaceTargets(c)
+     IN  /\ c.form \in PlaceForms
+         /\ Len(c.nums) = Len(T) /\ Len(c.ratios) = Len(T)
+         /\ c.form \in {"none_scalar", "list_scalar"} => \A k \in 1..Len(T) : c.nums[k] = c.nums[1] /\ c.ratios[k] = c.ratios[1]
+         /\ \A k \in 1..c.cl.n :
+               IF \E j \in 1..Len(T) : T[j] = k
+                 THEN /\ out.cells[k].count = c.nums[IndexIn(T, k)]
+                      /\ out.cells[k].ratio = c.ratios[IndexIn(T, k)]
+                 ELSE out.cells[k].count = 0
 
 (* ------------------------------------ emission -------------------------------------------------- *)
 Emit == EmitEdge([pre |-> c, post |-> c', out |-> out'])
